@@ -292,6 +292,9 @@ def run(ctx: C.Ctx):
     # ---- the local time zone of the process and user subclasses of leaf types, on the three engines
     from harness.props import c04_zone
     c04_zone.run(ctx, sys.modules[__name__], c04_engines)
+    # ---- the kinds of Enum classes (`_missing_` hooks, Flag combinations, unhashable member values, aliases, mix-ins)
+    from harness.props import c04_enum
+    c04_enum.run(ctx, sys.modules[__name__], None)
 
 
 def _nonjson(v):
